@@ -1590,6 +1590,8 @@ class Fxp():
         # return Fxp(self.val[index], like=self, raw=True)
         y = Fxp(like=self)
         y.val = self.val[index]
+        if not isinstance(y.val, (np.ndarray, np.generic)):
+            y.val = np.array(y.val, dtype=object)   # a single python integer taken from an array of 64 bits words or wider
         return y
 
     def __setitem__(self, index, value):
